@@ -72,18 +72,20 @@ class VariablesConfig(ImmutableBaseModel):
 
     @model_validator(mode="after")
     def _broadcast_and_transform(self, info: ValidationInfo) -> Self:
-        self._mutable()
+        # An object that was validated before is not modified, but copied:
+        config = self.model_copy() if getattr(self, "_is_immutable", False) else self
+        config._mutable()
 
         lower_bounds = broadcast_1d_array(
-            self.lower_bounds, "lower_bounds", self.initial_values.size
+            config.lower_bounds, "lower_bounds", config.initial_values.size
         )
         upper_bounds = broadcast_1d_array(
-            self.upper_bounds, "upper_bounds", self.initial_values.size
+            config.upper_bounds, "upper_bounds", config.initial_values.size
         )
 
         if info.context is not None and info.context.variables is not None:
-            self.initial_values = immutable_array(
-                info.context.variables.to_optimizer(self.initial_values)
+            config.initial_values = immutable_array(
+                info.context.variables.to_optimizer(config.initial_values)
             )
             lower_bounds = info.context.variables.to_optimizer(lower_bounds)
             upper_bounds = info.context.variables.to_optimizer(upper_bounds)
@@ -92,17 +94,19 @@ class VariablesConfig(ImmutableBaseModel):
             msg = "The lower bounds are larger than the upper bounds."
             raise ValueError(msg)
 
-        self.lower_bounds = immutable_array(lower_bounds)
-        self.upper_bounds = immutable_array(upper_bounds)
+        config.lower_bounds = immutable_array(lower_bounds)
+        config.upper_bounds = immutable_array(upper_bounds)
 
-        if self.types is not None:
-            check_enum_values(self.types, VariableType)
-            self.types = broadcast_1d_array(
-                self.types, "types", self.initial_values.size
+        if config.types is not None:
+            check_enum_values(config.types, VariableType)
+            config.types = broadcast_1d_array(
+                config.types, "types", config.initial_values.size
             )
-        if self.mask is not None:
-            self.mask = broadcast_1d_array(self.mask, "mask", self.initial_values.size)
+        if config.mask is not None:
+            config.mask = broadcast_1d_array(
+                config.mask, "mask", config.initial_values.size
+            )
 
-        self._immutable()
+        config._immutable()
 
-        return self
+        return config
